@@ -300,6 +300,25 @@ pub fn check_builder_state(ctx: &mut Ctx, st: &BuilderState) -> Result<(), Viola
 pub fn run(cfg: &Cfg) -> i32 {
     let report = engine::run_shards(cfg, |shard, ctx, seedf| {
         common::golden(cfg, shard, ctx, &check_step)?;
+        if shard == 0 {
+            // the two `Default` values are the initial position
+            engine::run_one(ctx, |ctx| {
+                ctx.eval();
+                let start = Pos::startpos().fen();
+                let case = || serde_json::json!({"start": start, "moves": []});
+                ctx.set_case(case());
+                let r = crate::engine::guarded(|| (BoardBuilder::default().to_string(), chess::Board::default().to_string(), chess::Board::default() == chess::Board::from_str(&start).unwrap()));
+                match r {
+                    Ok((bb, b, eq)) => {
+                        if bb != start || b != start || !eq {
+                            ctx.fail("fen:default", format!("BoardBuilder::default() renders {:?}, Board::default() renders {:?} (== parsed initial position: {}), standard text {:?}", bb, b, eq, start), case())?;
+                        }
+                    }
+                    Err(e) => ctx.fail("fen:default", format!("Default panicked: {}", e), case())?,
+                }
+                Ok(())
+            })?;
+        }
         common::histories(ctx, seedf(1), cfg.per_shard(400_000, 6_000_000), 4, 40, None, &check_step)?;
         let strat = proptest::collection::vec(any::<u16>(), 300);
         engine::pbt(ctx, seedf(2), cfg.per_shard(2_000_000, 30_000_000), &strat, |ctx, tape: &Vec<u16>| {
